@@ -12,7 +12,7 @@ open Golem.Go Golem.Model Golem.Model.DSL Golem.Model.StageCfg
 
 variable {σ α β ε : Type}
 
-attribute [local simp] runBody bind BodyM.bind pure BodyM.pure selSend plainSend ret next pollDone getS setS visit arrow
+attribute [local simp] runBody callsOf bind BodyM.bind pure BodyM.pure applyF selSend plainSend ret next pollDone getS setS visit arrow
   toExcept catchEm catchAfter mkStage
 
 open Golem.Props.Stage.PipeCatch
@@ -24,6 +24,11 @@ theorem stage_gen (m : ErrMode) (g : α → List β × Option ε) :
   simp only [mkStage, fmapS, Stage.mk.injEq]
   refine ⟨?_, rfl⟩
   funext s a
+  cases h : (g a).2 <;> cases m <;> simp [Golem.Gen.Pipe.FMap.body, h]
+
+/-- the regenerated loop body calls the user-supplied function exactly once per element, whatever the outcome -/
+theorem calls_gen (m : ErrMode) (g : α → List β × Option ε) (s : Unit) (a : α) :
+    callsOf (Golem.Gen.Pipe.FMap.body g (catchOfF m) a) s = 1 := by
   cases h : (g a).2 <;> cases m <;> simp [Golem.Gen.Pipe.FMap.body, h]
 
 /-- `make`, `go`, `close`: capacities, worker layout, close order -/
